@@ -71,7 +71,29 @@ def expand_locals(expr: ast.AST, fn: ast.AST, depth: int = 4, _seen: Optional[Se
             for _, v in assignments(fn, n.id):
                 if v is not None:
                     out += expand_locals(v, fn, depth - 1, seen)
+            # a loop / comprehension variable is made of the elements of what it iterates
+            for it in _iterables_of(fn, n.id):
+                out += expand_locals(it, fn, depth - 1, seen)
     return out
+
+
+def _iterables_of(fn: ast.AST, name: str) -> List[ast.AST]:
+    cache = getattr(fn, "_iter_cache", None)
+    if cache is None:
+        cache = {}
+        for x in ast.walk(fn):
+            if isinstance(x, (ast.For, ast.comprehension)):
+                it = x.iter
+                if isinstance(it, ast.Call) and isinstance(it.func, ast.Name) and it.func.id in ("enumerate", "reversed", "sorted", "list", "tuple") and it.args:
+                    it = it.args[0]
+                for t in ast.walk(x.target):
+                    if isinstance(t, ast.Name):
+                        cache.setdefault(t.id, []).append(it)
+        try:
+            fn._iter_cache = cache
+        except AttributeError:
+            pass
+    return cache.get(name, [])
 
 
 def value_sources(py, fn: ast.AST, expr: ast.AST, depth: int = 4, _seen: Optional[Set[str]] = None) -> List[ast.AST]:
